@@ -223,7 +223,13 @@ fn run_querier(ttl: u32, two_intf: bool, late: bool, trace: bool) -> CaseResult 
     w.advance(if late { 1500 } else { 200 });
     let i = Inst::simple("inst", "h", [10, 0, 0, 9]);
     let arrival = w.now;
-    w.deliver(0, IF0, PEER0, build(&response(i.all(ttl))));
+    // next to the ordinary (shared) PTR a peer's PTR that carries the cache-flush bit: unique records
+    // are never listed as known answers, whatever their type
+    let mut recs = i.all(ttl);
+    let mut uniq = ptr(&i.ty, &n("uniq._t._tcp.local"), ttl);
+    uniq.flush = true;
+    recs.push(uniq);
+    w.deliver(0, IF0, PEER0, build(&response(recs)));
     w.run_until(arrival + ttl as u64 * 1000 + 2000);
     let all = outs(&w, 0, 0);
     let life = ttl as u64 * 1000;
